@@ -91,7 +91,7 @@ func init() {
 			"(6) flush writes every collected entry, tombstones included, with its own sequence number; the tombstone marker constant is shared by block writer and reader; " +
 			"(7) the SSTable list is given a recency order when loaded from disk; (8) a successful transactional Put/Delete has buffered exactly that operation and pending operations leave the buffer only through Clear; immutable memtables leave the pool only into the flush path; (9) shared with C09: the buffered writer is never replaced without a flush and the fragment writer/reader agree on chunk boundaries (large values survive a reopen).",
 		NotDecided: "that the bytes returned equal the bytes put for every program (values); block/index seek landing inside SSTables (value-level binary search — the pinned tree gets this wrong, declared under C11); effects of memtable-size configurations.",
-		Rules:      []func(*Ctx, *Reporter){ruleLayerOrder, ruleTombstoneShortCircuit, ruleMemComparator, ruleMemFind, ruleMemInsert, ruleFlushRules, ruleStStamps, ruleEmptyNotDeleted, ruleTombstoneMarker, ruleRecencyAtLoad, ruleTxOpsBuffered, ruleWalNoBufferDrop, ruleWalFragmentation, ruleSortKeysFromSortedSlice, ruleMemTableGetTable, ruleRecoveryLastTableMutable},
+		Rules:      []func(*Ctx, *Reporter){ruleLayerOrder, ruleTombstoneShortCircuit, ruleMemComparator, ruleMemFind, ruleMemInsert, ruleFlushRules, ruleStStamps, ruleEmptyNotDeleted, ruleTombstoneMarker, ruleRecencyAtLoad, ruleTxOpsBuffered, ruleWalNoBufferDrop, ruleWalFragmentation, ruleSortKeysFromSortedSlice, ruleMemTableGetTable, ruleRecoveryLastTableMutable, ruleComparatorNoSubtraction},
 	})
 	register(&PropertyDef{
 		ID: "C05",
